@@ -38,7 +38,7 @@ LEVEL_TEXT = ('Kernel-checked: invalidate_deps yields the same recompute map for
               '(convert_deltas_to_actions) and apply_auto_removes are independent of dict/set insertion order. Whole-engine '
               'determinism is tested by running the same histories under different PYTHONHASHSEED in separate processes.')
 LEVEL_NOTE = ('Strength: kernel. The runtime hash function is not modelled; seed-dependent value CONTENT (repr of a set) is '
-              'found by the subprocess oracle only (known finding C30-set-repr).')
+              'found by the subprocess oracle only (C30-set-repr, repaired by df84fa7; its witness is replayed first each run).')
 SEEDS_QUICK = ['1', '2', '3']
 SEEDS_THOROUGH = [str(i) for i in range(1, 17)]
 
@@ -201,6 +201,29 @@ def describe(x, y):
   return '%s  vs  %s' % (json.dumps(x, default=repr)[:160], json.dumps(y, default=repr)[:160])
 
 
+def only_text_columns_differ(x, y):
+  """Every cell that differs between the two documents lies in a column of type Text (usertypes.Text.do_convert
+  stores str(value); the other two sites that store the text of a set were repaired by df84fa7)."""
+  ta, tb = x.get('tables', {}), y.get('tables', {})
+  meta_t, meta_c = ta.get('_grist_Tables'), ta.get('_grist_Tables_column')
+  if not meta_t or not meta_c:
+    return False
+  tname = dict(zip(meta_t['ids'], meta_t['cols']['tableId']))
+  ctype = {}
+  for pid, cid, typ in zip(meta_c['cols']['parentId'], meta_c['cols']['colId'], meta_c['cols']['type']):
+    ctype[(tname.get(pid), cid)] = typ
+  found = False
+  for t in ta:
+    if t not in tb or ta[t]['ids'] != tb[t]['ids']:
+      return False
+    for c, vals in ta[t]['cols'].items():
+      if vals != tb[t]['cols'].get(c):
+        found = True
+        if ctype.get((t, c)) != 'Text':
+          return False
+  return found
+
+
 def compare_full(hist, sa, sb):
   """Re-runs one history under two seeds with full output; (index, kind, what) of the first difference or None."""
   full = run_workers([hist], [sa, sb], mode='full')
@@ -208,7 +231,9 @@ def compare_full(hist, sa, sb):
   if d is None:
     return None
   i, x, y = d
-  kind = 'set_repr_in_unmarshallable_value' if set_repr_only(x, y) else 'cross-process-mismatch'
+  kind = 'cross-process-mismatch'
+  if set_repr_only(x, y):
+    kind = 'set_repr_in_text_column' if only_text_columns_differ(x, y) else 'set_repr_in_unmarshallable_value'
   return i, kind, 'PYTHONHASHSEED=%s vs %s, bundle %d: %s' % (sa, sb, i, describe(x, y))
 
 
@@ -445,7 +470,19 @@ def correspond(ctx):
   ctx.log('model tie: %d flush cases, %d auto-remove cases' % (len(cases), len(rc)))
 
 
+def corpus(ctx):
+  """Witnesses of the FIXED known-findings entries of this property: run first, a regression is a violation."""
+  for k in core.load_known():
+    if k['property'] != ID or k.get('kind') != 'fixed' or 'witness' not in k:
+      continue
+    desc = replay(ctx, k['witness'])
+    ctx.count(('corpus', k['id']), nontrivial=True, kind='corpus:fixed-witness')
+    if desc:
+      ctx.violation('regression:' + k['id'], '%s (repaired by %s): %s' % (k['id'], k.get('commit'), desc), k['witness'])
+
+
 def search(ctx):
+  corpus(ctx)
   seeds = SEEDS_THOROUGH if ctx.tier == 'thorough' else SEEDS_QUICK
   plan = [('shared', ctx.n(3, 40)), ('c05', ctx.n(4, 60)), ('sets', ctx.n(3, 30))]
   hists, kinds = [], []
